@@ -12,7 +12,8 @@ from gbasis.integrals.overlap import overlap_integral
 from gbasis.integrals.point_charge import point_charge_integral
 
 RULE = ("Hypothesis draws bases of 1-5 generalized mixed-type shells (l 0..3, exponents 0.05-50; for the repulsion array 1-3 "
-        "shells, l <= 2, exponents 0.1-10), centres from coincident to 15 bohr apart, optionally made NEARLY LINEARLY DEPENDENT "
+        "shells, l <= 2, exponents 0.1-10; plus a many-primitive class: a p shell of 6-10 (12) or a d shell of 3-4 (5) primitives, every count enumerated, next to a light "
+        "shell), centres from coincident to 15 bohr apart, optionally made NEARLY LINEARLY DEPENDENT "
         "by duplicating a shell with exponents scaled by 1+delta (delta 1e-2..1e-8) or displaced by 1e-1..1e-6 bohr, and 1-3 "
         "positive point charges anywhere.  Oracle (validity predicates on the returned arrays): S symmetric, lambda_min(S) >= "
         "-1e-9 lambda_max, |S_ab| <= 1+1e-9; lambda_min(T) >= -1e-9 lambda_max; lambda_max(V_q) <= 1e-9 |lambda|_max per positive "
@@ -23,7 +24,20 @@ ASSUMPTIONS = ["numpy.linalg.eigvalsh accurate to ~1e-14 of the largest eigenval
 
 
 @st.composite
+def heavy_st(draw, l, k):
+    """A many-primitive p or d shell (the (aa|aa) block then needs a recursion work space of 2^21..2^26 elements) next to a light
+    shell on another centre: code that evaluates a quartet in batches of primitives must still return a Gram matrix."""
+    cs = draw(gen.centres(2, p_same=0.0, halves=(0.5, 2.0)))
+    heavy = draw(gen.shell(l, cs[0], kmin=k, kmax=k, mmax=1, exp_lo=0.1, exp_hi=10.0))
+    light = draw(gen.shell(st.integers(0, 2), cs[1], kmax=2, mmax=1, exp_lo=0.1, exp_hi=10.0))
+    shells = [heavy, light] if draw(st.booleans()) else [light, heavy]
+    return {"shells": shells, "coords": [[0.0, 0.0, 0.0]], "charges": [1.0], "eri": True, "mode": 3, "heavy": k}
+
+
+@st.composite
 def case_st(draw, eri):
+    if isinstance(eri, (list, tuple)):  # enumerated (l, K) of the heavy shell
+        return draw(heavy_st(int(eri[0]), int(eri[1])))
     if eri:
         shells = draw(gen.basis(nmin=1, nmax=3, lmax=2, kmax=2, mmax=2, exp_lo=0.1, exp_hi=10.0, halves=(0.5, 2.0, 5.0)))
     else:
@@ -56,6 +70,8 @@ def _sym(v, name, A, tol):
 def judge(case):
     shells = case["shells"]
     v = Verdict(classes=[["plain", "scaled-duplicate", "displaced-duplicate", "plain"][case["mode"]]])
+    if case.get("heavy"):
+        v.classes += ["heavy-shell", "heavy-K%d-l%d" % (case["heavy"], max(s["l"] for s in shells if len(s["exps"]) == case["heavy"]))]
     bas = mk_basis(shells)
     S = lib(overlap_integral, bas)
     if _sym(v, "overlap", S, 1e-9):
@@ -115,8 +131,13 @@ def judge(case):
 def shards(tier):
     k, n = (12, 30) if tier == "quick" else (48, 400)
     ke, ne = (8, 4) if tier == "quick" else (32, 30)
+    lk = [(1, k_) for k_ in range(6, 11)] + [(2, 3), (2, 4)] + ([] if tier == "quick" else [(2, 5), (1, 11), (1, 12)])
+    nh = 1 if tier == "quick" else 12
     return ([{"id": f"o{i}", "n": n, "eri": False} for i in range(k)]
-            + [{"id": f"e{i}", "n": ne, "eri": True, "cost": 20 * ne} for i in range(ke)])
+            + [{"id": f"e{i}", "n": ne, "eri": True, "cost": 20 * ne} for i in range(ke)]
+            + [{"id": f"h-l{l_}-K{k_}", "n": nh, "eri": [l_, k_], "cost": 400 * nh} for l_, k_ in lk])
 
 
 SUBCHECKS = [SubCheck("gram", judge, shards, strategy=lambda s: case_st(s["eri"]))]
+
+EXPECTED_CLASSES = ["gram/heavy-shell", "gram/scaled-duplicate", "gram/displaced-duplicate"]
